@@ -291,3 +291,25 @@ func IsConcrete(s string) bool { return true }
 // Settle gives goroutines started by the code under test (commit actions run
 // in one) time to finish natively; under the executor they ran inline.
 func Settle() { time.Sleep(30 * time.Millisecond) }
+
+// ZonedTime: the instant sec/nsec carrying the UTC location (utc) or a fixed
+// zone of off seconds.
+func ZonedTime(sec, nsec int64, off int, utc bool) time.Time {
+	if utc {
+		return time.Unix(sec, nsec).UTC()
+	}
+	return time.Unix(sec, nsec).In(time.FixedZone("", off))
+}
+
+// Unsupported ends the path as inconclusive (never as a pass or a violation).
+func Unsupported(what string) { panic("verif: unsupported: " + what) }
+
+// TimeUTC: an arbitrary instant (UTC location) between year 1 and year 9999,
+// nanosecond resolution.
+func TimeUTC(tag string) time.Time {
+	sec := Int64(tag + ".sec")
+	nsec := Int64(tag + ".nsec")
+	Assume(And(sec >= -62135596800, sec < 253402300800))
+	Assume(And(nsec >= 0, nsec < 1000000000))
+	return time.Unix(sec, nsec).UTC()
+}
